@@ -52,11 +52,25 @@ class Case:
         self.val = make_val(rnd.random(), p_true)
         self.force_false = False
         self.pr = Probes(val=lambda stepno, tid: (False if self.force_false else self.val(stepno, tid)))
+        if rnd.random() < 0.2:
+            # another interpreter ran on the very same Statechart object before: nothing may leak through the model
+            acc.count('cases_with_earlier_interpreter_on_same_statechart')
+            pre = Interpreter(self.sc, initial_context=Probes(val=make_val(rnd.random(), 0.8)).context())
+            for _ in range(15):
+                if rnd.random() < 0.6:
+                    pre.queue(rnd.choice(self.ch['events']), u=-1)
+                if rnd.random() < 0.3:
+                    pre.clock.time += rnd.choice(DT)
+                try:
+                    pre.execute_once()
+                except Exception:       # noqa
+                    break
         self.it = Interpreter(self.sc, initial_context=self.pr.context())
         self.it.attach(self.pr.listener())
         self.model = RefModel(self.ch)
         self.next_uid = 0
         self.queued = {}            # uid -> (name, due, internal)
+        self.queued_n = Counter()   # uid -> how many times it was queued (the same Event instance may be queued twice)
         self.consumed = Counter()
         self.history = []           # client-boundary history (for replay files / samples)
         self.found = []
@@ -85,7 +99,15 @@ class Case:
             name = rnd.choice(self.ch['events'] + ['zz'])
             d = rnd.choice(DELAYS)
             evs.append((name, self.next_uid, d))
-        if n == 1 and rnd.random() < 0.5:
+        if rnd.random() < 0.08:
+            # the very same Event instance queued several times in one call
+            name, u, d = evs[0]
+            obj = Event(name, u=u, delay=d) if d else Event(name, u=u)
+            k = rnd.choice((2, 3))
+            self.it.queue(*([obj] * k))
+            evs = [evs[0]] * k
+            self.acc.count('same_event_instance_queued_twice')
+        elif n == 1 and rnd.random() < 0.5:
             name, u, d = evs[0]
             if d:
                 self.it.queue(name, u=u, delay=d)
@@ -98,6 +120,7 @@ class Case:
             due = self.it.time + d
             self.model.queue(name, u, due)
             self.queued[u] = (name, due, False)
+            self.queued_n[u] += 1
             self.history.append(('queue', name, u, d, self.it.time))
 
     def op_clock(self, dt=None):
@@ -180,10 +203,10 @@ class Case:
         # ---- model-independent oracles first: C02 (legal, stable), C03 (trace specification) ----------
         if step is not None:
             self.history.append(('returned', str(step)[:200]))
-        if not self.check_legal(k, step, before):
-            return
-        if step is not None and not self.check_trace(k, step, log, before, exp, ev_id(step.event)):
-            return
+        ok_legal = self.check_legal(k, step, before)
+        ok_trace = step is None or self.check_trace(k, step, log, before, exp, ev_id(step.event))
+        if not (ok_legal and ok_trace):
+            return      # both model-independent oracles were evaluated; the model-based ones need a sane step
         if exp.kind == 'error':
             return self.report('C04', 'no-error-raised', 'selected %r need %s but execute_once returned %s'
                                % (exp.fired, sorted(exp.errs), step), step=k, config=before,
@@ -203,6 +226,10 @@ class Case:
         got_ids = [self.tmap[id(t)] for t in step.transitions]
         got_ev = ev_id(step.event)
         if Counter(got_ids) != Counter(exp.fired):
+            if self.ch.get('timed_plain') and self.focus == 'C13':
+                return self.report('C13', 'transitions-differ-under-time-guards', 'fired %r, after()/idle() semantics gives %r '
+                                   '(enabled %r)' % (got_ids, exp.fired, exp.enabled), step=k, config=before,
+                                   stamps=dict(entry=dict(self.model.t_entry), idle=dict(self.model.t_idle)), time=t0)
             return self.report('C01', 'transitions-differ', 'fired %r, documented rule gives %r (enabled %r, flags %r)'
                                % (got_ids, exp.fired, exp.enabled, sorted(exp.flags)), step=k, config=before,
                                pending=exp.pending_uid)
@@ -216,8 +243,9 @@ class Case:
             return
         if got_ev is not None:
             self.consumed[got_ev] += 1
-            if self.consumed[got_ev] > 1:
-                return self.report('C05', 'consumed-twice', 'event %r consumed twice' % got_ev, step=k)
+            if self.consumed[got_ev] > max(1, self.queued_n[got_ev]):
+                return self.report('C05', 'consumed-twice', 'event %r consumed %d times, queued %d times'
+                                   % (got_ev, self.consumed[got_ev], self.queued_n[got_ev]), step=k)
             name, due, internal = self.queued.get(got_ev, (None, None, None))
             if due is None:
                 return self.report('C05', 'consumed-unknown', 'event %r was never queued' % got_ev, step=k)
@@ -264,6 +292,7 @@ class Case:
                     due = step.time + d
                     model.queue(ev.name, ev.u, due, internal=True)
                     self.queued[ev.u] = (ev.name, due, True)
+                    self.queued_n[ev.u] += 1
                     self.history.append(('sent', ev.name, ev.u, d))
 
 
@@ -531,7 +560,7 @@ class Case:
         if self.stop:
             return
         if not (model.iq or model.eq) and not self.errors_in_a_row:
-            lost = [u for u in self.queued if self.consumed[u] != 1]
+            lost = [u for u in self.queued if self.consumed[u] != self.queued_n[u]]
             if lost:
                 return self.report('C05', 'lost-or-duplicated', 'after the drain these events were not consumed exactly once: %r'
                                    % [(u, self.consumed[u]) for u in lost[:8]])
